@@ -52,6 +52,9 @@ def plans(world, info, seed, tier):
         for k_ in ("optimize_with_safe_paths", "optimize_with_safe_sequences", "optimize_with_safe_zero_edges", "optimize_with_flow_safe_paths"):
             w2["args"].get("optimization_options", {}).pop(k_, None)
         specs.append({"world": w2, "sim": {"latency": "instant", "reply": rng.choice(["canonical", "alt"]), "reply_seed": rng.randrange(1 << 30), "faults": []}})
+    w3 = mr.greedy_variant(world, rng)
+    if w3 is not None:
+        specs.append({"world": w3, "sim": {"latency": "instant", "reply": rng.choice(["canonical", "alt"]), "reply_seed": rng.randrange(1 << 30), "faults": []}})
     return specs
 
 
